@@ -11,6 +11,12 @@ CHECKS = {
         design="§5 C11"),
 }
 
+CHECKS["C10"] = dict(
+    technique="TLA+ specs BigInt/PanArith (exact limb arithmetic, binary long division); TLC validates them against native integers on a small window and then validates recorded operations of the real interpreter (trace validation), plus replay of the TLC-enumerated window",
+    text="Every recorded Int operation (boundary grid, powers, seeded random int64 pairs, exhaustive small window) must satisfy the exact relation stated in PanArith, evaluated by TLC over BigInt; small-scope plus sampling of the 2^128 pair space, not a proof.",
+    note="Trusts TLC, the BigInt module (cross-checked against TLC-native integers on [-W,W]^2 and by identities at 2^40), and decoding of float text to (significand, exponent).",
+    design="§5 C10")
+
 NOT_YET = {}
 
 def main():
